@@ -8,7 +8,7 @@
                    the back) built in.
     Quantification: ALL adapter lists, ALL closures (arbitrary Gallina functions), ALL
     consumers, ALL source lists — no depth or length bound. *)
-From KV Require Import Base.Prelude Model.Dsl Spec.Dsl Proofs.DslFusion Proofs.DslStd.
+From KV Require Import Base.Prelude Model.Dsl Spec.Dsl Proofs.DslFusion Proofs.DslStd Model.DslPulls Proofs.DslPullsProofs.
 
 (** step 1: the expansion computes the compositional semantics — every chain, also the
     known-finding class *)
@@ -43,9 +43,40 @@ Theorem C10_rev_after_skip_refuted :
   std_sem [ASkip 1; ARev] CForEach (ints [1;2;3;4]%Z) = DList (ints [4;3;2]%Z).
 Proof. exact dsl_rev_after_skip_refuted. Qed.
 
+(** the side-effect half (observe_at: "side effects of iter::for_each! vs the std chain"): how many
+    items the loop nest pulls from its source = how often the closures in front of the first
+    adapter are evaluated.  Finding F11 (known finding, shape=take-pulls-one-more): behind
+    one-for-one adapters [take(n)] pulls min(n+1, len) items where core::iter::Take pulls
+    min(n, len): `map(|x| 10 / *x), take(2)` over [1, 2, 0] divides by zero, std yields [10, 5]. *)
+Theorem C10_take_pulls : forall pre n src,
+  forallb one_to_one pre = true ->
+  pulled (pre ++ [ATake n]) CForEach src = Nat.min (S n) (length src).
+Proof. exact dsl_take_pulls. Qed.
+Theorem C10_take_pulls_eq_std_iff : forall pre n src,
+  forallb one_to_one pre = true ->
+  (pulled (pre ++ [ATake n]) CForEach src = std_take_pulls n src <-> (length src <= n)%nat).
+Proof. exact dsl_take_pulls_eq_std_iff. Qed.
+Theorem C10_take_pulls_one_more : forall pre n src,
+  forallb one_to_one pre = true -> (n < length src)%nat ->
+  pulled (pre ++ [ATake n]) CForEach src = S (std_take_pulls n src).
+Proof. exact dsl_take_pulls_one_more. Qed.
+Theorem C10_take_pulls_std_refuted :
+  exists pre n src, forallb one_to_one pre = true /\
+    pulled (pre ++ [ATake n]) CForEach src <> std_take_pulls n src.
+Proof. exact dsl_take_pulls_std_refuted. Qed.
+Example C10_take_pulls_witness :
+  pulled ([ACopied; AMap (fun v => v)] ++ [ATake 2]) CForEach [DInt 1; DInt 2; DInt 0] = 3%nat
+  /\ std_take_pulls 2 [DInt 1; DInt 2; DInt 0] = 2%nat.
+Proof. exact pulls_witness. Qed.
+
 Print Assumptions C10_macro_eq_doc.
 Print Assumptions C10_doc_eq_std.
 Print Assumptions C10_dsl_eq_std.
 Print Assumptions C10_dsl_eq_std_forward.
 Print Assumptions C10_rev_after_take_refuted.
 Print Assumptions C10_rev_after_skip_refuted.
+Print Assumptions C10_take_pulls.
+Print Assumptions C10_take_pulls_eq_std_iff.
+Print Assumptions C10_take_pulls_one_more.
+Print Assumptions C10_take_pulls_std_refuted.
+Print Assumptions C10_take_pulls_witness.
